@@ -124,6 +124,20 @@ def impl(case):
             except Exception as e:
                 nd.append([list(sh), "raised " + type(e).__name__ + ": " + str(e)[:60]])
         res["nd"] = nd
+        # a broadcastable mix whose sizes happen to coincide: the first input as a column (3, 1), the others as rows (3,): every pairing,
+        # i.e. the same values as for the inputs broadcast beforehand (shapes may stay un-broadcast where an output ignores the column)
+        if len(cols) >= 2:
+            try:
+                mix = [cols[0].reshape(3, 1)] + [c.copy() for c in cols[1:]]
+                rm = m(*mix)
+                rm = rm if isinstance(rm, tuple) else (rm,)
+                rf = m(*[np.array(x) for x in np.broadcast_arrays(*mix)])
+                rf = rf if isinstance(rf, tuple) else (rf,)
+                okm = all(np.array_equal(np.broadcast_to(np.asarray(getattr(x, "value", x)), (3, 3)), np.asarray(getattr(y, "value", y)), equal_nan=True)
+                          for x, y in zip(rm, rf))
+                res["mix"] = "ok" if okm else "differs: shapes %s" % [list(np.shape(x)) for x in rm]
+            except Exception as e:
+                res["mix"] = "raised " + type(e).__name__ + ": " + str(e)[:60]
     except Exception as e:
         res["array_err"] = C.exc_enum(e) + ":" + str(e)[:80]
     if case["fn"] in UNITS:
@@ -151,6 +165,23 @@ def impl(case):
             res["rewrap_inverse"] = int(m2.inverse.wrap_lon_at) == new_wrap
         except Exception as e:
             res["rewrap_err"] = C.exc_enum(e) + ":" + str(e)[:80]
+    if case["fn"] in ("sphericalToCartesian", "cartesianToSpherical"):
+        # an assignment that is refused leaves the model as configured: same answer, same declared inverse
+        try:
+            m3 = _model(case)
+            before = _vals(m3(*[float(a) for a in args]))
+            refused = []
+            for bad in (180.0, 360.0, True, "180", 90):
+                try:
+                    m3.wrap_lon_at = bad
+                    refused.append(False)
+                except ValueError:
+                    refused.append(True)
+            after = _vals(m3(*[float(a) for a in args]))
+            res["refused_wrap"] = {"all_refused": all(refused), "same": before == after, "attr": m3.wrap_lon_at == (360 if case.get("wrap360", True) else 180),
+                                   "inverse_ok": int(m3.inverse.wrap_lon_at) == (360 if case.get("wrap360", True) else 180)}
+        except Exception as e:
+            res["refused_wrap"] = {"err": C.exc_enum(e) + ":" + str(e)[:80]}
     # declared inverse
     try:
         inv = m.inverse
@@ -207,6 +238,12 @@ def oracle(case, res):
             if verdict != "ok":
                 out.append(("shape_nd", "%s on inputs of shape %s: %s (element-wise values / shape must match the 1-D evaluation)" % (fn, sh, verdict)))
                 break
+    rw = res.get("refused_wrap")
+    if rw is not None and ("err" in rw or not (rw["all_refused"] and rw["same"] and rw["attr"] and rw["inverse_ok"])):
+        out.append(("refused_wrap", "%s: after refused assignments to wrap_lon_at (180.0, 360.0, True, '180', 90) the model is not as configured: %s" % (fn, rw)))
+    if res.get("mix", "ok") != "ok":
+        out.append(("broadcast", "%s with the first input as a (3, 1) column and the others as (3,) rows: %s (every pairing must come out as for inputs "
+                                 "broadcast beforehand)" % (fn, res["mix"])))
     if "quantity" in res and not all(_close(_unf(x), y, 1e-13, 1e-13) for x, y in zip(res["quantity"], s)):
         out.append(("quantity", "%s%s: quantity inputs give %s, plain inputs %s" % (fn, a, [_unf(v) for v in res["quantity"]], s)))
     if "quantity_mixed" in res and not all(_close(_unf(x), y, 1e-12, 1e-10) for x, y in zip(res["quantity_mixed"], s)):
@@ -234,7 +271,10 @@ def oracle(case, res):
             if not (-90 <= lat <= 90):
                 out.append(("lat_range", "c2s%s latitude %r outside [-90, 90]" % (a, lat)))
             if case.get("wrap360", True):
-                if not (0 <= lon < 360):
+                if lon == 360.0 and a[0] > 0 and -1e-9 * a[0] < a[1] < 0:
+                    # finding D43: a longitude a hair below zero is rounded up to the period itself by np.mod
+                    out.append(("D43", "c2s%s longitude is 360.0, outside [0, 360)" % (a,)))
+                elif not (0 <= lon < 360):
                     out.append(("lon_range", "c2s%s longitude %r outside [0, 360)" % (a, lon)))
             elif not (-180 <= lon <= 180):
                 out.append(("lon_range", "c2s%s longitude %r outside [-180, 180]" % (a, lon)))
@@ -363,6 +403,10 @@ def gen(rng, tier):
         elif sp == "pole":
             v = [0.0, 0.0, rng.choice([3.0, -0.5])]
         yield {"fn": "cartesianToSpherical", "args": v, "wrap360": rng.random() < 0.5, "batch": batch(3), "special": sp}
+        if rng.random() < 0.15:
+            # a hair below the positive x axis: the longitude is a tiny negative angle before it is wrapped
+            yield {"fn": "cartesianToSpherical", "args": [rng.uniform(0.5, 5), -10.0 ** rng.uniform(-300, -17), rng.uniform(-2, 2)], "wrap360": True,
+                   "batch": batch(3), "special": "hair_below_x"}
         # very short and very long vectors: the direction does not depend on the length
         k2 = rng.choice([-1, 1]) * rng.randint(300, 680)
         vs = [math.ldexp(rng.uniform(-5, 5), k2) for _i in range(3)]
